@@ -673,7 +673,14 @@ func extractMinimalRegions(t *trie.Trie[bit256.Key, peer.ID], path bitstr.Key, s
 		return append(extractMinimalRegions(t.Branch(b), path+bitstr.Key(byte('0'+b)), size, order),
 			extractMinimalRegions(t.Branch(1-b), path+bitstr.Key(byte('1'-b)), size, order)...)
 	}
-	return []Region{{Prefix: path, Peers: t}}
+	// t is the subtrie hanging below `path`. A region's Peers trie must be rooted
+	// at the keyspace root, like the Keys trie built by AssignKeysToRegions:
+	// AllocateToKClosest walks both tries in lockstep from depth 0, and with a
+	// subtrie on one side it would compare bit i of a key with bit len(path)+i of
+	// a peer, allocating keys to peers that aren't their closest.
+	peers := trie.New[bit256.Key, peer.ID]()
+	peers.AddMany(AllEntries(t, order)...)
+	return []Region{{Prefix: path, Peers: peers}}
 }
 
 // AssignKeysToRegions assigns the provided keys to the regions based on their
